@@ -827,11 +827,106 @@ fn factory_oracle(case: &FactoryCase, obs: &mut Obs) -> Result<(), Fail> {
 
 // =======================================================================================
 
+
+// ---------------------------------------------------------------------------------------
+// phase order: the BUILT pipeline applies the operations in the order they are written
+// ---------------------------------------------------------------------------------------
+// parse_vpl returning the right tree is not enough if the factory then assembles the stages in
+// another order. Stages that do not commute make the order observable: every
+// vectortiles_update_properties stage sets the same property `v` (merge mode) to its own tag, so
+// the value that comes out is the tag of the LAST stage written.
+
+#[derive(Clone, Debug, Serialize, Deserialize)]
+struct OrderCase {
+	/// tags of the update stages in written order (2..=4 stages)
+	tags: Vec<u8>,
+	/// positions (after which stage) where a commuting filter_zoom is inserted
+	filters: Vec<u8>,
+	/// wrap the whole pipeline as first source of a from_overlayed
+	nested: bool,
+	tape: Vec<u8>,
+}
+
+fn order_case() -> impl Strategy<Value = OrderCase> {
+	(proptest::collection::vec(0u8..6, 2..=4), proptest::collection::vec(0u8..4, 0..3), any::<bool>(), proptest::collection::vec(any::<u8>(), 0..40)).prop_map(|(tags, filters, nested, tape)| OrderCase { tags, filters, nested, tape })
+}
+
+fn order_oracle(case: &OrderCase, obs: &mut Obs) -> Result<(), Fail> {
+	use vt::model::{Advert, Fmt, LevelSpec, MemReader, Pay, SetSpec, Shape};
+	use vt::util::Comp;
+	let spec = SetSpec {
+		tag: "w".into(),
+		levels: vec![LevelSpec { z: 3, x0: 1, y0: 2, w: 3, h: 2, shape: Shape::Dense, seed: 1 }],
+		pay: Pay::Mvt,
+		format: Fmt::Pbf,
+		comp: Comp::None,
+		really_compressed: false,
+		advert: Advert::Tight,
+		meta: None,
+	};
+	let set = spec.materialise();
+	let dir = vt::util::tmp_dir();
+	let _g = vt::util::TmpGuard(dir.clone());
+	// one data file per tag: every tile's feature (property k = "w z/x/y") gets v = "T<tag>"
+	for t in 0..6u8 {
+		let mut text = String::from("key,v\n");
+		for c in set.tiles.keys() {
+			text.push_str(&format!("w {c},T{t}\n"));
+		}
+		std::fs::write(dir.join(format!("data{t}.csv")), text).map_err(|e| Fail::new("harness:io", e.to_string()))?;
+	}
+	let mut nodes = vec![Node::new("from_container").prop("filename", "leaf0")];
+	for (i, t) in case.tags.iter().enumerate() {
+		nodes.push(Node::new("vectortiles_update_properties").prop("data_source_path", format!("data{t}.csv")).prop("layer_name", "w").prop("id_field_tiles", "k").prop("id_field_data", "key"));
+		if case.filters.contains(&(i as u8)) {
+			nodes.push(Node::new("filter_zoom").prop("min", "0").prop("max", "20"));
+		}
+	}
+	let mut tree = Tree::new(nodes);
+	let mut readers: Vec<Box<dyn versatiles_core::types::TilesReaderTrait>> = vec![Box::new(MemReader::new(&set, "leaf0"))];
+	if case.nested {
+		// a second (disjoint) source, so that the overlay is legal
+		let other = SetSpec { tag: "o".into(), levels: vec![LevelSpec { z: 5, x0: 9, y0: 9, w: 1, h: 1, shape: Shape::Dense, seed: 2 }], ..spec.clone() };
+		readers.push(Box::new(MemReader::new(&other.materialise(), "leaf1")));
+		tree = Tree::new(vec![Node::new("from_overlayed").sources(vec![tree, Tree::new(vec![Node::new("from_container").prop("filename", "leaf1")])])]);
+	}
+	let text = vt::vpltree::render(&tree, &case.tape);
+	let factory = vt::sources::factory_with(readers, &dir);
+	let op = match guard(|| vt::util::block_on(factory.operation_from_vpl(&text))) {
+		Ok(Ok(op)) => op,
+		Ok(Err(e)) => return Err(Fail::new("factory:valid-pipeline-rejected", format!("{text:?} was rejected: {e:#}"))),
+		Err(p) => return Err(Fail::from_panic(&format!("building {text:?}"), &p)),
+	};
+	let want = format!("T{}", case.tags.last().unwrap());
+	for c in set.tiles.keys() {
+		let blob = match guard(|| vt::util::block_on(op.get_tile_data(&c.vt()))) {
+			Ok(Ok(Some(b))) => b.into_vec(),
+			Ok(Ok(None)) => return Err(Fail::new("order:tile-missing", format!("{text:?}: tile {c} is missing"))),
+			Ok(Err(e)) => return Err(Fail::new("order:lookup-error", format!("{text:?}: {e:#}"))),
+			Err(p) => return Err(Fail::from_panic(&format!("lookup in {text:?}"), &p)),
+		};
+		let layers = vt::mvt::decode_sem(&blob).map_err(|e| Fail::new("order:output-not-a-tile", format!("{text:?}: {e}")))?;
+		let got = layers.iter().find(|l| l.name == "w").and_then(|l| l.features.first()).and_then(|f| f.props.get("v")).cloned();
+		ensure_prop!(
+			got == Some(vt::mvt::CanonValue::Str(want.clone())),
+			"order:stages-applied-in-another-order",
+			"{text:?}: tile {c}: property v is {got:?}, the last stage written sets {want:?} (stage tags in written order: {:?})",
+			case.tags
+		);
+	}
+	obs.label(format!("stages={}", case.tags.len()));
+	obs.label_if(case.nested, "nested-in-source-list");
+	obs.label_if(!case.filters.is_empty(), "with-commuting-filter");
+	let distinct: std::collections::BTreeSet<&u8> = case.tags.iter().collect();
+	obs.nontrivial(distinct.len() >= 2 && case.tags.first() != case.tags.last());
+	Ok(())
+}
+
 fn main() {
 	let mut check = Check::from_args(
 		"C18",
 		"exploration",
-		"phase trees: proptest syntax trees (1-4 nodes per pipeline, 0-4 properties with keys from a small pool so that they repeat, values bare / arbitrary quoted strings / lists of 0-5, 0-3 nested pipelines per node, nesting depth <= 3, thorough 5) rendered with a generated tape of quoting and whitespace choices; non-trivial = nesting >= 1 and a (necessarily quoted) value containing one of | [ ] , = \"; phases broken and factory: every asserted mutation / fault class counts as non-trivial; distinct = distinct serialised (tree, tape[, mutation]) cases",
+		"phase trees: proptest syntax trees (1-4 nodes per pipeline, 0-4 properties with keys from a small pool so that they repeat, values bare / arbitrary quoted strings / lists of 0-5, 0-3 nested pipelines per node, nesting depth <= 3, thorough 5) rendered with a generated tape of quoting and whitespace choices; non-trivial = nesting >= 1 and a (necessarily quoted) value containing one of | [ ] , = \"; phases broken and factory: every asserted mutation / fault class counts as non-trivial; phase order: built pipelines of 2-4 non-commuting vectortiles_update_properties stages (optionally with commuting filters in between, optionally nested in a source list) must apply the stages in the written order (the last stage's value wins), non-trivial = first and last stage differ; distinct = distinct serialised (tree, tape[, mutation]) cases",
 	);
 	check.assume("syntax = versatiles_pipeline/src/help.md + the property statement; the alphabet of bare values / identifiers, the escapes \\\\ \\\" \\n \\t and the whitespace set (space, tab, CR, LF) are those of vpl/parser.rs, the documentation is silent about them");
 	check.assume("whitespace is generated before/after the text, around |, between name and properties and between properties (at least one character there), around =, inside list values around [ , ], before the source list and inside it around [ , ]; not generated (documentation silent, parser rejects): properties without separating whitespace, properties after the source list");
@@ -867,6 +962,9 @@ fn main() {
 	let reg: Vec<FactoryCase> = check.regression_cases("factory");
 	check.enumerate("regressions-factory", reg, false, factory_oracle);
 
+	let reg: Vec<OrderCase> = check.regression_cases("order");
+	check.enumerate("regressions-order", reg, false, order_oracle);
+	check.phase("order", check.cases(3000, 60_000), order_case, order_oracle);
 	check.phase("trees", check.cases(50_000, 1_000_000), || tree_case(max_depth), trees_oracle);
 	check.phase("broken", check.cases(30_000, 400_000), broken_case, broken_oracle);
 	check.phase("factory", check.cases(12_000, 150_000), factory_case, factory_oracle);
